@@ -17,7 +17,8 @@ Systematic == {"apply-size@2", "apply-size@1of2", "apply-arity-fewer", "apply-re
                "empty-method-name", "empty-method-name-apply", "empty-uemethod-name", "empty-uefunc-name", "iface-empty-method-name",
                "iface-return-before-as", "iface-returns-before-as", "iface-when-before-as", "method-when-few", "nil-func-target",
                "var-apply-non-func", "var-apply-two-results",
-               "when-few-chained-variadic", "when-few-chained-fixed", "when-few-chained-variadic-method", "matches-few-variadic"}
+               "when-few-chained-variadic", "when-few-chained-fixed", "when-few-chained-variadic-method", "matches-few-variadic",
+               "ret-size-after-twin", "returns-size-after-twin"}
 TypedCause == {"when-few", "ret-few", "iface-not-interface", "iface-first-param", "iface-arity"}
 Known == {"non-function", "when-few", "ret-few", "ret-size", "unknown-method", "unknown-symbol", "unknown-symbol-as",
           "iface-non-pointer", "iface-not-interface", "iface-first-param", "iface-arity", "iface-unknown-method",
